@@ -6,21 +6,16 @@ Import ListNotations.
 Local Open Scope N_scope.
 
 (* mi_heap_delete in progress: the pages still to be moved / nothing left behind *)
-Definition hd4_quiet (stk : list frame) (ret : bool) : bool :=
-  match stk with
-  | [HD4 _] => true
-  | [DA _; HD4 _] => ret
-  | stk => has_af stk
-  end.
-Definition hd_okP (c : cfg) (th : thread) : Prop :=
-  match bottom (th_stk th) with
-  | Some (HD3 h _ ps) =>
+Definition hd_fr_okP (c : cfg) (th : thread) (fr : frame) : Prop :=
+  match fr with
+  | HD3 h _ ps =>
     forall p, pg_alive (getp c p) = true -> pg_heap (getp c p) = Some h -> In p ps
-  | Some (HD4 h) =>
+  | HD4 h =>
     (forall p, pg_alive (getp c p) = true -> pg_heap (getp c p) <> Some h)
     /\ (hd4_quiet (th_stk th) (th_ret th) = true -> hp_del (geth c h) = [])
   | _ => True
   end.
+Definition hd_okP (c : cfg) (th : thread) : Prop := forall fr, In fr (th_stk th) -> hd_fr_okP c th fr.
 
 (* block accounting *)
 Record InvA (c : cfg) : Prop := mkInvA {
@@ -71,7 +66,7 @@ Definition InvT (c : cfg) : Prop :=
 Lemma Inv_init : Inv (mkCfg [] [] []).
 Proof.
   constructor; [reflexivity|constructor..]; unfold mW, mF, mD, mWin, mPw, gett, getp, geth, hd_okP; cbn; intros;
-    try reflexivity; try lia; try discriminate; try exact I; auto.
+    try reflexivity; try lia; try discriminate; try exact I; try contradiction; auto.
   - destruct H; [discriminate|lia].
 Qed.
 Lemma InvT_init : InvT (mkCfg [] [] []).
@@ -80,21 +75,24 @@ Proof. intros p H. cbn in H. congruence. Qed.
 (* ------------------------------------------------------------------------------------------ *)
 (* views: what the structural parts read from pages and heaps                                 *)
 (* ------------------------------------------------------------------------------------------ *)
-Definition pview (pg : page) := (pg_alive pg, pg_tid pg, pg_used pg, pg_heap pg).
+Definition pview (pg : page) := (pg_alive pg, pg_tid pg, pg_heap pg).
 Definition hview (hp : heap) := (hp_st hp, hp_owner hp, hp_backing hp).
 
 Lemma pview_eq pg pg' : pview pg = pview pg' ->
-  pg_alive pg = pg_alive pg' /\ pg_tid pg = pg_tid pg' /\ pg_used pg = pg_used pg' /\ pg_heap pg = pg_heap pg'.
+  pg_alive pg = pg_alive pg' /\ pg_tid pg = pg_tid pg' /\ pg_heap pg = pg_heap pg'.
 Proof. unfold pview. intros H; inversion H; auto. Qed.
 Lemma hview_eq hp hp' : hview hp = hview hp' ->
   hp_st hp = hp_st hp' /\ hp_owner hp = hp_owner hp' /\ hp_backing hp = hp_backing hp'.
 Proof. unfold hview. intros H; inversion H; auto. Qed.
 
-(* two configurations agree on everything the structural predicates read *)
-Record agree (c c' : cfg) : Prop := mkAgree {
+(* two configurations agree on everything the structural predicates read; only thread tx may have
+   changed `used`, and only of its own pages *)
+Record agree (tx : N) (c c' : cfg) : Prop := mkAgree {
   ag_p : forall p, pview (getp c' p) = pview (getp c p);
+  ag_u : forall p, pg_used (getp c' p) = pg_used (getp c p) \/ own (getp c p) tx = true;
   ag_h : forall h, hview (geth c' h) = hview (geth c h);
-  ag_abs : forall t p h, absorbing (th_stk (gett c t)) p h = true -> absorbing (th_stk (gett c' t)) p h = true;
+  ag_abs : forall t p h, absorbing (th_stk (gett c t)) p h = true ->
+           absorbing (th_stk (gett c' t)) p h = true \/ mWin c p = 0%nat;
   ag_bot : forall t h, hd_bottom (th_stk (gett c t)) h = true -> hd_bottom (th_stk (gett c' t)) h = true
 }.
 
@@ -106,37 +104,50 @@ Proof. intros H. apply hview_eq in H as (H1 & H2 & _). unfold hown, hp_alive. re
 Lemma orb_mono a b b' : (b = true -> b' = true) -> a || b = true -> a || b' = true.
 Proof. destruct a, b; cbn; auto. Qed.
 
-Lemma del_ok_agree c c' h b : agree c c' -> del_ok c h b = true -> del_ok c' h b = true.
+Lemma del_ok_agree tx c c' h b : agree tx c c' -> del_ok c h b = true -> del_ok c' h b = true.
 Proof.
   intros A. unfold del_ok.
-  pose proof (hview_eq _ _ (ag_h _ _ A h)) as (E1 & E2 & E3).
-  pose proof (pview_eq _ _ (ag_p _ _ A (fst b))) as (F1 & F2 & F3 & F4).
+  pose proof (hview_eq _ _ (ag_h _ _ _ A h)) as (E1 & E2 & E3).
+  pose proof (pview_eq _ _ (ag_p _ _ _ A (fst b))) as (F1 & F2 & F4).
   unfold hp_alive. rewrite E1, E2, F2, F4. intros H.
   apply andb_prop in H as [H H']. rewrite H. cbn [andb].
-  revert H'. apply orb_mono. apply (ag_bot _ _ A).
+  revert H'. apply orb_mono. apply (ag_bot _ _ _ A).
 Qed.
 Lemma forallb_impl {A} (f g : A -> bool) l : (forall x, f x = true -> g x = true) -> forallb f l = true -> forallb g l = true.
 Proof. intros H. induction l; cbn; [auto|]. intros E. apply andb_prop in E as [E1 E2]. rewrite H, IHl; auto. Qed.
 
-Lemma fr_ok_agree c c' t th fr : agree c c' -> fr_ok c t th fr = true -> fr_ok c' t th fr = true.
+Lemma own_true pg t : own pg t = true -> pg_alive pg = true /\ pg_tid pg = t.
+Proof. unfold own. intros H. apply andb_prop in H as [H1 H2]. apply N.eqb_eq in H2. auto. Qed.
+
+(* frames whose validity refers to another thread's stack *)
+Definition noabs (f : frame) : Prop := match f with RF4 _ _ | RF5 _ _ _ => False | _ => True end.
+Definition fr_win_ok (c : cfg) (f : frame) : Prop :=
+  match f with RF4 b _ | RF5 b _ _ => (1 <= mWin c (fst b))%nat | _ => True end.
+Lemma noabs_win_ok c f : noabs f -> fr_win_ok c f.
+Proof. destruct f; cbn; tauto. Qed.
+
+Lemma fr_ok_agree tx c c' t th fr : agree tx c c' -> (forall p, fr = PF p -> t <> tx) -> fr_win_ok c fr ->
+  fr_ok c t th fr = true -> fr_ok c' t th fr = true.
 Proof.
-  intros A.
-  assert (Ho : forall p, own (getp c' p) t = own (getp c p) t) by (intros; apply own_view, (ag_p _ _ A)).
-  assert (Hh : forall h u, hown (geth c' h) u = hown (geth c h) u) by (intros; apply hown_view, (ag_h _ _ A)).
+  intros A Hpf Hwin.
+  assert (Ho : forall p, own (getp c' p) t = own (getp c p) t) by (intros; apply own_view, (ag_p _ _ _ A)).
+  assert (Hh : forall h u, hown (geth c' h) u = hown (geth c h) u) by (intros; apply hown_view, (ag_h _ _ _ A)).
   assert (Hb : forall h, hp_backing (geth c' h) = hp_backing (geth c h)).
-  { intros h. pose proof (hview_eq _ _ (ag_h _ _ A h)) as (_ & _ & E). exact E. }
+  { intros h. pose proof (hview_eq _ _ (ag_h _ _ _ A h)) as (_ & _ & E). exact E. }
   assert (Hd : forall h l, forallb (del_ok c h) l = true -> forallb (del_ok c' h) l = true).
-  { intros h l. apply forallb_impl. intros x. apply del_ok_agree; assumption. }
+  { intros h l. apply forallb_impl. intros x. apply (del_ok_agree tx); assumption. }
   assert (Ht : forall p, pg_tid (getp c' p) = pg_tid (getp c p)).
-  { intros p. pose proof (pview_eq _ _ (ag_p _ _ A p)) as (_ & E & _ & _). exact E. }
-  assert (Hu : forall p, pg_used (getp c' p) = pg_used (getp c p)).
-  { intros p. pose proof (pview_eq _ _ (ag_p _ _ A p)) as (_ & _ & E & _). exact E. }
+  { intros p. pose proof (pview_eq _ _ (ag_p _ _ _ A p)) as (_ & E & _). exact E. }
   assert (Hp : forall p, pg_heap (getp c' p) = pg_heap (getp c p)).
-  { intros p. pose proof (pview_eq _ _ (ag_p _ _ A p)) as (_ & _ & _ & E). exact E. }
+  { intros p. pose proof (pview_eq _ _ (ag_p _ _ _ A p)) as (_ & _ & E). exact E. }
   assert (Hf : forall l, forallb (fun p => own (getp c p) t) l = true -> forallb (fun p => own (getp c' p) t) l = true).
   { intros l. apply forallb_impl. intros x. rewrite Ho. auto. }
-  destruct fr; cbn [fr_ok]; rewrite ?Ho, ?Hh, ?Hb, ?Ht, ?Hu, ?Hp; auto;
+  destruct fr; cbn [fr_ok]; rewrite ?Ho, ?Hh, ?Hb, ?Ht, ?Hp; auto;
     intros H; rewrite ?andb_true_iff in *; repeat match goal with H : _ /\ _ |- _ => destruct H end;
     repeat split; auto;
-    try (match goal with H : _ || absorbing _ _ _ = true |- _ => revert H; apply orb_mono; apply (ag_abs _ _ A) end).
+    try (match goal with H : _ || absorbing _ _ _ = true |- _ =>
+           revert H; apply orb_mono; intros H; destruct (ag_abs _ _ _ A _ _ _ H) as [H'|H']; [exact H'|cbn in Hwin; lia] end).
+  (* PF: used *)
+  destruct (ag_u _ _ _ A p) as [E|E]; [rewrite E; assumption|].
+  apply own_true in E as [_ E]. apply own_true in H as [_ H]. exfalso. apply (Hpf p eq_refl). congruence.
 Qed.
